@@ -239,10 +239,74 @@ func suiteC10(c *ctx) {
 		}
 		cases = append(cases, cs)
 	}
+	cases = append(cases, directedFlushCases(r, "C10", c.n(36))...)
 	parallelJ(len(cases), func(i int) interface{} { return cases[i] }, func(i int) { checkHistoryAPI(c.rep, c.pool, cases[i]) })
 	filterViolations(c.rep, func(o string) bool {
 		return isFlushOracle(o) || o == "panic" || o == "unexpected-error" || o == "stream-after-flush"
 	})
+}
+
+// directedFlushCases: Flush (or Close) at the exact points where the writers' buffers turn over.
+//  - dynamic levels: the total written fills the input buffer exactly (2W+258, then +W+258 per
+//    slide) at the end of a Write and Flush/Close is the next call;
+//  - dynamic levels, incompressible data: the pending length is such that the 32768-token block
+//    limit falls on one of the last bytes handled by the flush tail of the match finder (lengths
+//    around 32768 for the pure-Go finder, just below 65536 for the assembly finders);
+//  - Huffman-only: Flush when the bytes written since the last Flush are a multiple of 65536.
+func directedFlushCases(r *Rng, prop string, n int) []*WCase {
+	var out []*WCase
+	dyn := []Setting{{API: "flate", Level: 1}, {API: "flate", Level: 2}, {API: "flate", Level: -1}, {API: "flate", Level: 1, Win4K: true},
+		{API: "flate", Level: 2, Win4K: true}, {API: "gzip", Level: 1}, {API: "zlib", Level: -1}}
+	for i := 0; i < n; i++ {
+		var s Setting
+		var ops []Op
+		var d DataSpec
+		endOp := Op{K: "f"}
+		if i%5 == 4 {
+			endOp = Op{K: "c"}
+		}
+		switch i % 3 {
+		case 0:
+			s = dyn[r.Intn(len(dyn))]
+			w := s.Window()
+			tot := 2*w + 258 + (w+258)*r.Intn(3) + r.Pick([]int{0, 0, 0, -1, 1})
+			d = DataSpec{Gen: r.PickS([]string{"text", "rnd", "uni3", "run"}), Seed: r.U64(), N: tot + 50}
+			if r.Bool() {
+				ops = []Op{{K: "w", N: tot}}
+			} else {
+				ops = []Op{{K: "w", N: tot - 7}, {K: "w", N: 7}}
+			}
+			ops = append(ops, endOp)
+			if endOp.K == "f" {
+				ops = append(ops, Op{K: "w", N: 50}, Op{K: "c"})
+			}
+		case 1:
+			s = dyn[r.Intn(5)]
+			base := 32764 + (i/3*5)%16
+			if r.Bool() {
+				base = 65516 + (i/3*7)%24
+			}
+			if s.Win4K && r.Bool() {
+				base -= r.Intn(200)
+			}
+			d = DataSpec{Gen: "rnd", Seed: r.U64(), N: base + 40}
+			ops = []Op{{K: "w", N: base}, endOp}
+			if endOp.K == "f" {
+				ops = append(ops, Op{K: "w", N: 40}, Op{K: "c"})
+			}
+		default:
+			s = Setting{API: r.PickS([]string{"flate", "flate", "gzip"}), Level: -2}
+			m := 65536 * (1 + r.Intn(2))
+			d = DataSpec{Gen: r.PickS([]string{"text", "rnd", "uni3", "fib"}), Seed: r.U64(), N: 2*m + 30}
+			ops = []Op{{K: "w", N: m}, {K: "f"}}
+			if r.Bool() {
+				ops = append(ops, Op{K: "w", N: m}, Op{K: "f"})
+			}
+			ops = append(ops, Op{K: "w", N: 30}, Op{K: "c"})
+		}
+		out = append(out, &WCase{Prop: prop, ID: fmt.Sprintf("%s-x%d", prop, i), Set: s, Datas: []DataSpec{d}, Ops: ops})
+	}
+	return out
 }
 
 func suiteC19(c *ctx) {
@@ -289,6 +353,10 @@ func suiteC09(c *ctx) {
 	r := NewRng(c.seed ^ 0xC09)
 	var cases []*WCase
 	for i := 0; i < c.n(260); i++ {
+		if i%4 == 3 {
+			cases = append(cases, genC09Directed(r, i))
+			continue
+		}
 		cases = append(cases, genC09(r, i))
 	}
 	parallelJ(len(cases), func(i int) interface{} { return cases[i] }, func(i int) { checkC09(c.rep, c.pool, cases[i]) })
@@ -350,6 +418,8 @@ func suiteC16(c *ctx) {
 		}
 		cases = append(cases, &WCase{Prop: "C16", ID: fmt.Sprintf("C16-r%d", i), Set: s, Datas: []DataSpec{{Gen: r.PickS([]string{"text", "uni3", "rnd", "per4"}), Seed: r.U64(), N: 800000}}, Ops: ops})
 	}
+	// Flush/Close at the exact points where the writers' buffers turn over
+	cases = append(cases, directedFlushCases(r, "C16", c.n(24))...)
 	parallelJ(len(cases), func(i int) interface{} { return cases[i] }, func(i int) { checkC16(c.rep, c.pool, cases[i]) })
 	checkC16Levels(c.rep)
 }
@@ -373,7 +443,13 @@ func suiteC20(c *ctx) {
 			}
 			d = DataSpec{Gen: fmt.Sprintf("per%d", p), Seed: r.U64(), N: r.Range(65536, 300000)}
 		} else {
-			d = DataSpec{Gen: r.PickS([]string{"rnd", "uni8", "uni6", "uni4", "fib", "uni1", "two", "one", "text", "run"}), Seed: r.U64(), N: pickSize(r, s, true)}
+			d = DataSpec{Gen: r.PickS([]string{"rnd", "uni8", "uni6", "uni4", "fib", "uni1", "two", "one", "text", "run", "rarerun", "deeprun", "deeprun"}), Seed: r.U64(), N: pickSize(r, s, true)}
+			if d.Gen == "deeprun" {
+				if s.Level == -2 {
+					s.Level = []int{1, 2, -1}[r.Intn(3)]
+				}
+				d.N = r.Range(68000, 200000)
+			}
 		}
 		wc := &WCase{Prop: "C20", ID: fmt.Sprintf("C20-%d", i), Set: s, Datas: []DataSpec{d}, Ops: []Op{{K: "w", N: d.N}, {K: "c"}}}
 		if i%7 == 3 {
@@ -410,7 +486,7 @@ func suiteC20(c *ctx) {
 		cases = append(cases, wc)
 		per = append(per, p)
 	}
-	parallelJ(len(cases), func(i int) interface{} { return cases[i] }, func(i int) { checkC20(c.rep, cases[i], per[i]) })
+	parallelJ(len(cases), func(i int) interface{} { return cases[i] }, func(i int) { checkC20(c.rep, c.pool, cases[i], per[i]) })
 }
 
 func replayCase(c *ctx, v Violation) {
@@ -432,7 +508,7 @@ func replayCase(c *ctx, v Violation) {
 		case "C20":
 			p := 0
 			fmt.Sscanf(wc.Datas[0].Gen, "per%d", &p)
-			checkC20(c.rep, &wc, p)
+			checkC20(c.rep, c.pool, &wc, p)
 		}
 		return
 	}
